@@ -111,6 +111,18 @@ impl Property for C18 {
             }
             tx.set_input(i, &txin);
         }
+        // input total: the sum of the extended values when every input has one, otherwise None
+        {
+            let vals: Vec<Option<u64>> = (0..r.ins.len()).map(|i| c.ext[i % c.ext.len()].satoshis).collect();
+            let want: Option<u128> = if vals.is_empty() || vals.iter().any(|v| v.is_none()) { None } else { Some(vals.iter().map(|v| v.unwrap() as u128).sum()) };
+            // values whose (partial) sums exceed u64 have no u64 total; the accessor is only consulted below that
+            let partial: u128 = vals.iter().map(|v| v.unwrap_or(0) as u128).sum();
+            match want {
+                _ if partial > u64::MAX as u128 => {}
+                Some(t) => ensure_eq!(lib_call("satoshis_in", || tx.satoshis_in())?, Some(t as u64), "satoshis_in_sum"),
+                None => ensure_eq!(lib_call("satoshis_in", || tx.satoshis_in())?, None, "satoshis_in_none_when_a_value_is_missing"),
+            }
+        }
         // wire bytes are unchanged by the extended fields
         ensure_eq_hex!(tx.to_bytes().map_err(|e| failure("to_bytes", e.to_string(), "Ok"))?, wire::encode_tx(&r), "extended_fields_do_not_change_wire_bytes");
 
